@@ -61,6 +61,23 @@ def jBytes (b : List UInt8) : Json :=
   | some s => Json.str s
   | none => Json.null
 
+/-- `queries`: [[raw key, lower-cased normalised key], …] looked up the way a consuming
+`TargetDatabase.__getitem__` does in the loaded inventory `d` -/
+def resolveAll (P : PyRe) (j : Json) (d : Option Dict) : Except String Json := do
+  let qs := match j.getObjValAs? (Array Json) "queries" with | .ok a => a.toList | .error _ => []
+  let out ← qs.mapM (fun q => do
+    let a ← q.getArr?
+    let raw := (← (a[0]?.getD Json.null).getStr?).toList
+    let low := (← (a[1]?.getD Json.null).getStr?).toList
+    let nk := normalizeWs P raw
+    let hit := match d with
+      | none => Json.null
+      | some d => match resolveIn d nk low with
+        | some e => Json.mkObj [("name", S e.name), ("uri", S e.uri)]
+        | none => Json.null
+    pure (Json.mkObj [("nk", S nk), ("hit", hit)]))
+  pure (Json.arr out.toArray)
+
 /-- entries → the file `dumps` writes (header + uncompressed payload), what `parse` reads back from
 it, per entry: the dumped line, its parse, well-formedness, the canonical entry. -/
 def inv (j : Json) : Except String Json := do
@@ -72,9 +89,11 @@ def inv (j : Json) : Except String Json := do
   let per := es.map (fun kv =>
     Json.mkObj [("line", S (dumpLine kv.2)), ("parsed", jLine (parseLine P (dumpLine kv.2))),
                 ("wf", Json.bool (wfEntry P kv.2)), ("canon", jEntry (keyOf (canon kv.2)) (canon kv.2))])
+  let back := match file with | some b => parse P idCodec b | none => none
+  let res ← resolveAll P j back
   pure (Json.mkObj [("file", match file with | some b => jBytes b | none => Json.null),
                     ("raised", Json.bool file.isNone),
-                    ("parsed", match file with | some b => jDict (parse P idCodec b) | none => Json.null),
+                    ("parsed", jDict back), ("resolved", res),
                     ("per", Json.arr per.toArray)])
 
 /-- raw payload text → per-line results and the final dict -/
@@ -115,7 +134,8 @@ def gen (j : Json) : Except String Json := do
     | some d => match dumps idCodec "verif".toList [] d with
       | none => none
       | some b => parse P idCodec b
-  pure (Json.mkObj [("inventory", jDict g), ("parsed", jDict back)])
+  let res ← resolveAll P j back
+  pure (Json.mkObj [("inventory", jDict g), ("parsed", jDict back), ("resolved", res)])
 
 def ops : List (String × (Json → Except String Json)) :=
   [("c15.inv", inv), ("c15.lines", lines), ("c15.skip", skip), ("c15.dirhtml", dirhtml), ("c15.gen", gen)]
